@@ -91,10 +91,10 @@ SOFTWARE.
 
 #define AGG_FAIL                                                                       \
     (LC_TEMPLATE | LC_ARGUMENT | LC_WIKILINK | LC_EXT_LINK_TITLE | LC_HEADING |        \
-     LC_TAG | LC_STYLE | LC_TABLE_OPEN)
+     LC_TAG | LC_STYLE | LC_TABLE)
 #define AGG_UNSAFE                                                                     \
     (LC_TEMPLATE_NAME | LC_WIKILINK_TITLE | LC_EXT_LINK_TITLE |                        \
-     LC_TEMPLATE_PARAM_KEY | LC_ARGUMENT_NAME)
+     LC_TEMPLATE_PARAM_KEY | LC_ARGUMENT_NAME | LC_TAG_CLOSE)
 #define AGG_DOUBLE (LC_TEMPLATE_PARAM_KEY | LC_TAG_CLOSE | LC_TABLE_ROW_OPEN)
 #define AGG_NO_WIKILINKS                                                               \
     (LC_TEMPLATE_NAME | LC_ARGUMENT_NAME | LC_WIKILINK_TITLE | LC_EXT_LINK_URI)
